@@ -5,6 +5,7 @@ import (
 	"go/constant"
 	"go/token"
 	"go/types"
+	"math/big"
 	"path/filepath"
 	"strings"
 
@@ -15,6 +16,51 @@ import (
 type SymInt struct{ E string }
 type SymBool struct{ E string }
 type SymStr struct{ E string }
+
+// SymReal: floating-point values are modelled as mathematical reals (no rounding, no Inf/NaN): stated model assumption.
+type SymReal struct{ E string }
+
+func isFloatType(t types.Type) bool {
+	b, ok := t.Underlying().(*types.Basic)
+	return ok && b.Info()&types.IsFloat != 0
+}
+
+func realLit(v constant.Value) string {
+	r := constant.ToFloat(v)
+	num, den := constant.Num(r), constant.Denom(r)
+	if num.Kind() != constant.Int || den.Kind() != constant.Int { // not exactly representable as a ratio of integers: use float64
+		f, _ := constant.Float64Val(r)
+		rat := new(big.Rat)
+		rat.SetFloat64(f)
+		return ratLit(rat)
+	}
+	rat, _ := new(big.Rat).SetString(num.ExactString() + "/" + den.ExactString())
+	return ratLit(rat)
+}
+
+func ratLit(r *big.Rat) string {
+	n := new(big.Int).Set(r.Num())
+	neg := n.Sign() < 0
+	n.Abs(n)
+	ex := fmt.Sprintf("(/ %s.0 %s.0)", n.String(), r.Denom().String())
+	if neg {
+		ex = "(- " + ex + ")"
+	}
+	return ex
+}
+
+func realE(v any) string {
+	switch x := v.(type) {
+	case SymReal:
+		return x.E
+	case int64:
+		return "(to_real " + intE(x) + ")"
+	case SymInt:
+		return "(to_real " + x.E + ")"
+	}
+	panic(fmt.Sprintf("realE: %T", v))
+}
+
 type Ptr struct {
 	cells *[]any
 	idx   int
@@ -85,6 +131,9 @@ type Engine struct {
 	nOblig, nDischarged          int
 	inconclusive                 []string
 	sleepDur                     map[int]string // clock reading index -> vf.Sleep duration preceding it
+	marshalMemo                  map[string]string
+	dhPairs                      [][2]string
+	macKeys                      []string
 }
 
 // resetPath prepares the engine for one deterministic re-execution along the decision prefix.
@@ -100,7 +149,7 @@ func (e *Engine) resetPath(prefix []bool) {
 	e.trace = nil
 	e.pendingSleep = ""
 	e.cut = nil
-	e.randSyms = nil
+	e.randSyms, e.dhPairs, e.macKeys, e.marshalMemo = nil, nil, nil, map[string]string{}
 	e.schedInit()
 	onceDone, syncMaps, mutexes = map[*any]bool{}, map[*any]*MapV{}, map[*any]*MutexV{}
 	b64Of = map[string]string{}
@@ -252,7 +301,7 @@ func boolE(v any) string {
 }
 func isSym(v any) bool {
 	switch v.(type) {
-	case SymInt, SymBool, SymStr:
+	case SymInt, SymBool, SymStr, SymReal:
 		return true
 	}
 	return false
@@ -472,6 +521,8 @@ func zero(t types.Type) any {
 			return false
 		case u.Info()&types.IsInteger != 0:
 			return int64(0)
+		case u.Info()&types.IsFloat != 0:
+			return SymReal{"0.0"}
 		case u.Info()&types.IsString != 0:
 			return ""
 		}
@@ -517,6 +568,9 @@ func copyVal(v any) any {
 func (e *Engine) constVal(c *ssa.Const) any {
 	if c.Value == nil {
 		return zero(c.Type())
+	}
+	if isFloatType(c.Type()) {
+		return SymReal{realLit(c.Value)}
 	}
 	switch c.Value.Kind() {
 	case constant.Bool:
@@ -820,6 +874,9 @@ func (e *Engine) eval(f *frame, v ssa.Value) any {
 			}
 			return SymBool{"(not " + boolE(a) + ")"}
 		case token.SUB:
+			if r, ok := a.(SymReal); ok {
+				return SymReal{"(- " + r.E + ")"}
+			}
 			if i, ok := a.(int64); ok {
 				return -i
 			}
@@ -839,6 +896,12 @@ func (e *Engine) eval(f *frame, v ssa.Value) any {
 		return e.get(f, x.X)
 	case *ssa.Convert:
 		v := e.get(f, x.X)
+		if isFloatType(x.Type()) {
+			return SymReal{realE(v)}
+		}
+		if r, ok := v.(SymReal); ok { // float -> integer: truncation toward zero
+			return SymInt{fmt.Sprintf("(ite (>= %s 0.0) (to_int %s) (- (to_int (- %s))))", r.E, r.E, r.E)}
+		}
 		if isByteSlice(x.Type()) {
 			switch sv := v.(type) {
 			case string, SymStr:
@@ -1070,6 +1133,33 @@ func (e *Engine) binop(op token.Token, a, b any, x *ssa.BinOp) any {
 			return SymBool{"(not (= " + strE(a) + " " + strE(b) + "))"}
 		}
 	}
+	_, ar := a.(SymReal)
+	_, br := b.(SymReal)
+	if ar || br {
+		A, B := realE(a), realE(b)
+		switch op {
+		case token.ADD:
+			return SymReal{"(+ " + A + " " + B + ")"}
+		case token.SUB:
+			return SymReal{"(- " + A + " " + B + ")"}
+		case token.MUL:
+			return SymReal{"(* " + A + " " + B + ")"}
+		case token.QUO:
+			return SymReal{"(/ " + A + " " + B + ")"}
+		case token.EQL:
+			return SymBool{"(= " + A + " " + B + ")"}
+		case token.NEQ:
+			return SymBool{"(not (= " + A + " " + B + "))"}
+		case token.LSS:
+			return SymBool{"(< " + A + " " + B + ")"}
+		case token.LEQ:
+			return SymBool{"(<= " + A + " " + B + ")"}
+		case token.GTR:
+			return SymBool{"(> " + A + " " + B + ")"}
+		case token.GEQ:
+			return SymBool{"(>= " + A + " " + B + ")"}
+		}
+	}
 	ai, aok := a.(int64)
 	bi, bok := b.(int64)
 	if aok && bok {
@@ -1111,7 +1201,10 @@ func (e *Engine) binop(op token.Token, a, b any, x *ssa.BinOp) any {
 			return SymInt{"(* " + A + " " + B + ")"}
 		case token.QUO:
 			e.oblige("(not (= "+B+" 0))", "PANIC divide by zero")
-			return SymInt{fmt.Sprintf("(ite (>= %s 0) (div %s %s) (- (div (- %s) %s)))", A, A, B, A, B)} // B>0 assumed
+			return SymInt{truncDiv(A, B)}
+		case token.REM:
+			e.oblige("(not (= "+B+" 0))", "PANIC divide by zero")
+			return SymInt{fmt.Sprintf("(- %s (* %s %s))", A, B, truncDiv(A, B))}
 		case token.EQL:
 			return SymBool{"(= " + A + " " + B + ")"}
 		case token.NEQ:
@@ -1145,6 +1238,11 @@ func (e *Engine) binop(op token.Token, a, b any, x *ssa.BinOp) any {
 		}
 	}
 	panic(fmt.Sprintf("binop %s on %T %T", op, a, b))
+}
+
+// truncDiv is Go's integer division (truncation toward zero) over SMT's flooring div.
+func truncDiv(A, B string) string {
+	return fmt.Sprintf("(let ((q (div (abs %s) (abs %s)))) (ite (= (>= %s 0) (>= %s 0)) q (- q)))", A, B, A, B)
 }
 
 func ptrEq(a, b any) bool {
